@@ -96,6 +96,14 @@ def run_mst(case):
 
 
 def gen(rng, nmax=9):
+    if nmax >= 9 and rng.random() < 0.12:
+        # dense: complete graphs and heavy multigraphs - the frontier of prim grows far beyond the number of nodes
+        n = rng.randint(4, 12)
+        edges = [[u, v, rng.randint(1, 30)] for u in range(n) for v in range(u + 1, n)]
+        if n <= 6:
+            edges += [[rng.randrange(n), rng.randrange(n), rng.randint(1, 30)] for _ in range(rng.randint(6, 14))]
+        rng.shuffle(edges)
+        return {"n": n, "edges": edges, "wscale": 1, "labels": rng.choice(["int", "str", "big"]), "starts": [None, rng.randrange(n), rng.randrange(n)]}
     n = rng.randint(1, nmax)
     m = rng.randint(0, min(18, n * 3)) if n <= 9 else rng.randint(n, 2 * n + 6)      # larger graphs: union-find trees of rank >= 2
     neg = rng.random() < 0.3
